@@ -126,6 +126,19 @@ def fuse_comprehensions(t: "T") -> "T":
     kw = {k: fuse_comprehensions(v) for k, v in t.kw.items()}
     if t.op == "elem" and args and args[0].op == "comp" and len(args[0].args) == 2:
         return args[0].args[0]
+    # element k of a comprehension over a LITERAL list:  [f(x) for x in [a, b, c]][1] == f(b)
+    if t.op == "item" and isinstance(t.name, int) and args and args[0].op == "comp" and len(args[0].args) == 2 and \
+            args[0].args[1].op in ("list", "tuple") and 0 <= t.name < len(args[0].args[1].args):
+        lit = args[0].args[1]
+        ekey = T("elem", None, [lit]).key()
+
+        def sub_elem(x):
+            if x.key() == ekey:
+                return lit.args[t.name]
+            if not x.args and not x.kw:
+                return x
+            return T(x.op, x.name, [sub_elem(a) for a in x.args], {k: sub_elem(v) for k, v in x.kw.items()}, x.node)
+        return sub_elem(args[0].args[0])
     return T(t.op, t.name, args, kw, t.node)
 
 
